@@ -1,5 +1,6 @@
 (* Lexer driver: runs the CLexer model on lex-cases (harness/FORMAT-parse.md). *)
 open Model
+type string = String.t
 open Common
 
 let kinds = [ "A", KA; "B", KB; "C", KC; "D", KD; "X", KX; "U", KU; "Ws", KWs; "Comma", KComma;
